@@ -5,6 +5,7 @@ import (
 	"encoding/json"
 	"fmt"
 	"math/rand"
+	"reflect"
 	"regexp"
 	"strings"
 	"time"
@@ -242,6 +243,11 @@ func show(v interface{}) string {
 		return "[" + strings.Join(parts, ", ") + "]"
 	case error:
 		return "error:" + x.Error()
+	}
+	// containers are rendered by the cycle-safe observer (a data map may contain itself after `$s = this`)
+	switch reflect.ValueOf(v).Kind() {
+	case reflect.Map, reflect.Slice, reflect.Ptr, reflect.Struct, reflect.Array, reflect.Interface:
+		return clipS(fmt.Sprintf("%T:", v)+obs.SnapshotValues(v), 100)
 	}
 	return clipS(fmt.Sprintf("%T:%v", v, v), 100)
 }
